@@ -250,6 +250,7 @@ def _record_tiny(name, tier, r):
         for j in range(1, 13 if thorough else 11):
             ks |= {2 ** j, 2 ** j - 1}
         ks |= {r.randrange(2 * n + 1) for _ in range(12 if thorough else 5)}
+        ks |= set(eclib.pattern_scalars(range(4, 13) if thorough else (6, 9, 12), n))
         ks = sorted(ks)
         for pa in group:
             for ka, ca in reps(pa, lams):
@@ -479,7 +480,9 @@ def _oracle_curve(args):
     for j in js:
         ks += [2 ** j, 2 ** j - 1]
     ks += [r.randrange(1, 2 * n + 1) for _ in range(40 if thorough else 6)]
-    ks = sorted(set(ks))
+    # long runs and periodic bit patterns (0x5555.., 0xAAAA.., 0x3333.., floor(2^m/3), 2^m -+ 2^k, ...), fractions of the order
+    pat = set(eclib.pattern_scalars(range(40, nb + 2) if thorough else sorted({50, 53, 54, 64, nb - 2, nb - 1, nb, nb + 1}), n))
+    ks = sorted(set(ks) | pat)
     # relations between group operations and scalars (homomorphism, proved on the tiny curves by MC_ECGroup)
     rel = []
     for _ in range(12 if thorough else 3):
@@ -517,8 +520,11 @@ def _oracle_curve(args):
             rel_ev("k*G table path, scaled representative Z=%d, k=%d (%s)" % (Gs[2], k, "odd" if k % 2 else "even"),
                    lambda: PointJacobi(c, Gs[0], Gs[1], Gs[2], n, generator=True) * k, k)
             rel_ev("k*G table path, scaled representative Z=2, k=%d" % k, lambda: PointJacobi(c, 4 * Gx % p, 8 * Gy % p, 2, n, generator=True) * k, k)
-        if thorough or k.bit_length() <= nb // 2 or k in (n - 1, n, n + 1, 2 * n + 1):
-            rel_ev("k*G affine Point k=%d" % k, lambda: Point(c, Gx, Gy, n) * k, k)
+        if thorough or k in pat or k.bit_length() <= nb // 2 or k in (n - 1, n, n + 1, 2 * n + 1):
+            rel_ev("k*G affine Point k=%d (%#x)" % (k, k), lambda: Point(c, Gx, Gy, n) * k, k)
+            if k in pat:
+                rel_ev("k*G affine Point without order k=%#x" % k, lambda: Point(c, Gx, Gy) * k, k)
+                rel_ev("k*G affine Point, int * Point, k=%#x" % k, lambda: k * Point(c, Gx, Gy, n), k)
     # error path: the first multiplication of a FRESH generator object is interrupted inside _maybe_precompute (sampled
     # line positions), the exception swallowed; later multiplications on the same object are compared with OpenSSL
     code = eclib.precompute_code()
@@ -846,6 +852,57 @@ def _tiny_history(args):
                     for how in ("int", "bytes"):
                         sec, s = _ecdh_run(ecdh_mod.ECDH, scen, X, O, sk, vkX, vkO, how)
                         rec(nx).ev("ecdhh", name + ":" + how, pat, (sec, 0, 0), k=dA, m=dB, s=s)
+    # ---- look-alike Curve OBJECTS: same OID / same name / same p and a but other b, other generator, other order value,
+    #      OID missing on one side -- as peer key curve, as object curve, in every call sequence
+    from register_crypto_plugin.ecdsa.ellipticcurve import CurveFp, Point
+    from register_crypto_plugin.ecdsa.curves import Curve
+    OID, OID2 = (1, 3, 9999, 1, 7), (1, 3, 9999, 1, 8)
+    for nx in (("T17", "T11") if order == 0 else ("T11", "T17")):
+        p, a_, b_, gx, gy, n, h = TINY[nx]
+        pl = TINY[nx + "L"]
+        cX, cL = CurveFp(p, a_, b_, 1), CurveFp(pl[0], pl[1], pl[2], 1)
+        mkg = lambda c, x, y, o: PointJacobi(c, x, y, 1, o, generator=True)
+        G2 = Point(cX, gx, gy, n) * 2
+        for xoid in (OID, None):
+            X = Curve(nx, cX, mkg(cX, gx, gy, n), xoid)
+            likes = [("same-oid-other-b", Curve(nx, cL, mkg(cL, pl[3], pl[4], pl[5]), OID), 0),
+                     ("same-oid-other-name-other-b", Curve("lookalike", cL, mkg(cL, pl[3], pl[4], pl[5]), OID), 0),
+                     ("no-oid-other-b", Curve(nx, cL, mkg(cL, pl[3], pl[4], pl[5]), None), 0),
+                     ("other-oid-other-b", Curve(nx, cL, mkg(cL, pl[3], pl[4], pl[5]), OID2), 0),
+                     ("same-oid-other-generator", Curve(nx, cX, mkg(cX, int(G2.x()), int(G2.y()), n), OID), 2),
+                     ("same-oid-other-order-value", Curve(nx, cX, mkg(cX, gx, gy, 3 * n), OID), 2),
+                     ("other-oid-same-parameters", Curve(nx, cX, mkg(cX, gx, gy, n), OID2), 2)]
+            for lname, Lk, kind in likes:
+                for dA in (2, 5):
+                    dB = 3
+                    try:
+                        sk = keys.SigningKey.from_secret_exponent(dA, X)
+                        vkX = keys.SigningKey.from_secret_exponent(dB, X).get_verifying_key()
+                        vkO = keys.SigningKey.from_secret_exponent(dB, Lk).get_verifying_key()
+                        Q = (int(vkO.pubkey.point.x()), int(vkO.pubkey.point.y()))
+                    except Exception as ex:
+                        rec(nx).ev("ecdhh", "key-generation:" + lname, (1, 1, 1), k=dA, m=dB, s="raise:" + eclib.mro(ex))
+                        continue
+                    for name, pat, scen in _ecdh_scenarios():
+                        if kind == 2 and (pat == (1, 1, 1) or pat[2] != 0):
+                            continue                     # same equation: only sequences whose peer key lives on the look-alike
+                        for how in ("int", "bytes"):
+                            sec, s = _ecdh_run(ecdh_mod.ECDH, scen, X, Lk, sk, vkX, vkO, how)
+                            via = "%s:%s:%s:%s" % (name, how, lname, "oid" if xoid else "no-oid")
+                            if kind == 2:
+                                rec(nx).ev("ecdhh", via, (1, 1, 2), (sec, Q[0], Q[1]), k=dA, m=dB, s=s)
+                            else:
+                                rec(nx).ev("ecdhh", via, pat, (sec, 0, 0), k=dA, m=dB, s=s)
+                    # the look-alike as the curve of the PRIVATE key offered to an object of the real curve
+                    for how, fn in (("load_private_key", lambda: ecdh_mod.ECDH(X).load_private_key(keys.SigningKey.from_secret_exponent(dA, Lk))),
+                                    ("ctor", lambda: ecdh_mod.ECDH(X, keys.SigningKey.from_secret_exponent(dA, Lk)))):
+                        if kind == 0:
+                            try:
+                                fn()
+                                s = "ok"
+                            except Exception as ex:
+                                s = eclib.mro(ex)
+                            rec(nx).ev("ecdhh", "private-key-on-lookalike:%s:%s:%s" % (how, lname, "oid" if xoid else "no-oid"), (0, 1, 1), k=dA, m=dB, s=s)
     return {nm: r_.evs for nm, r_ in recs.items()}
 
 
@@ -940,6 +997,62 @@ def _oracle_history(args):
                 else:
                     rec.ev("docreject", what + " -> %s" % (("secret %x" % sec) if s == "ok" else s), "accept" if s == "ok" else "reject", "",
                            cls=s.split("|")[0], ctx="ecdh-curves")
+    # ---- look-alike Curve OBJECTS of a shipped curve (its field and a, b + 1 -- the invalid-curve set-up --, own generator,
+    #      the target's order value), carrying the target's OID and name / no OID / another OID: as the peer key's curve in
+    #      every call sequence.  The peer point is judged by OpenSSL as a point of the TARGET curve.
+    from register_crypto_plugin.ecdsa.ellipticcurve import CurveFp
+    from register_crypto_plugin.ecdsa.curves import Curve
+    from register_crypto_plugin.ecdsa import numbertheory
+    look_pending = []
+    for X in [byname[nm_] for nm_ in (("NIST256p", "SECP256k1", "BRAINPOOLP256r1", "SECP112r2", "NIST384p", "SECP160r1") if thorough else ("NIST256p", "SECP256k1", "SECP112r2"))]:
+        p, a_, b2 = int(X.curve.p()), int(X.curve.a()), (int(X.curve.b()) + 1) % int(X.curve.p())
+        L = blen(X)
+        evil = CurveFp(p, a_, b2, 1)
+        while True:
+            x = r.randrange(1, p)
+            try:
+                y = int(numbertheory.square_root_mod_prime((pow(x, 3, p) + a_ * x + b2) % p, p))
+                break
+            except numbertheory.SquareRootError:
+                continue
+        other_oid = byname["SECP128r1"].oid
+        for lname, mk in (("same OID and name", lambda: Curve(X.name, evil, PointJacobi(evil, x, y, 1, int(X.order)), X.oid, X.openssl_name)),
+                          ("same OID, other name", lambda: Curve("lookalike", evil, PointJacobi(evil, x, y, 1, int(X.order)), X.oid)),
+                          ("no OID", lambda: Curve(X.name, evil, PointJacobi(evil, x, y, 1, int(X.order)), None)),
+                          ("another curve's OID", lambda: Curve(X.name, evil, PointJacobi(evil, x, y, 1, int(X.order)), other_oid))):
+            dA, dB = r.randrange(1, int(X.order)), r.randrange(1, int(X.order))
+            try:
+                Lk = mk()
+                sk = keys.SigningKey.from_secret_exponent(dA, X)
+                vkX = keys.SigningKey.from_secret_exponent(dB, X).get_verifying_key()
+                vkO = keys.SigningKey.from_secret_exponent(dB, Lk).get_verifying_key()
+                qb = b"\x04" + int(vkO.pubkey.point.x()).to_bytes(L, "big") + int(vkO.pubkey.point.y()).to_bytes(L, "big")
+            except Exception as ex:
+                rec.ev("flags", "history: look-alike of %s (%s): key generation raised %s" % (X.name, lname, eclib.mro(ex)), [0], [])
+                continue
+            for name, pat, scen in _ecdh_scenarios():
+                if pat == (1, 1, 1):
+                    continue
+                for how in ("int", "bytes"):
+                    sec, s = _ecdh_run(ecdh_mod.ECDH, scen, X, Lk, sk, vkX, vkO, how)
+                    what = "history: ECDH %s, %s; peer curve object: look-alike of %s with b+1 (%s), peer point %s -> %s" % (
+                        name, how, X.name, lname, qb.hex(), ("secret %x" % sec) if s == "ok" else s)
+                    if pat[2] == 0:
+                        e = rec.ev("verdict", what, "accept" if s == "ok" else "reject", None, cls=s.split("|")[0], ctx="ecdh-curves")
+                        look_pending.append((e, X, qb))
+                    else:
+                        rec.ev("docreject", what, "accept" if s == "ok" else "reject", "", cls=s.split("|")[0], ctx="ecdh-curves")
+            for how, fn in (("from_public_point(point object of the look-alike)", lambda: keys.VerifyingKey.from_public_point(vkO.pubkey.point, X)),
+                            ("from_string(bytes of the look-alike's point)", lambda: keys.VerifyingKey.from_string(qb[1:], X)),
+                            ("ECDH.load_received_public_key_bytes", lambda: _ecdh_load(ecdh_mod, X, qb))):
+                try:
+                    fn()
+                    lv, cls = "accept", ""
+                except Exception as ex:
+                    lv, cls = "reject", type(ex).__name__
+                e = rec.ev("verdict", "history: point %s of the look-alike of %s (%s) loaded through %s" % (qb.hex(), X.name, lname, how), lv, None, cls=cls,
+                           ctx="ecdh-bytes" if "ECDH" in how else ("pub-point" if "point object" in how else "pub-string"))
+                look_pending.append((e, X, qb))
     # ---- k*G on A, on B, on A again (same integers)
     mulq = []
     for A, B in pairs:
@@ -955,6 +1068,7 @@ def _oracle_history(args):
                            zero=int(k % n == 0), cls=cls)
                 mulq.append((e, cv, k % n))
     # ---- OpenSSL answers
+    pending += [(e, (X, qb)) for e, X, qb in look_pending]
     uq = sorted({(cvq.name, x962) for _, (cvq, x962) in pending})
     ans = dict(zip(uq, eclib.pmap(lambda q: eclib.ossl_pubcheck(byname[q[0]], q[1]), uq, workers=8)))
     ncalls += len(uq)
@@ -1190,6 +1304,12 @@ def _tiny_violation(rep, nm, e, x, ctx):
                 if fixed:
                     key = "add-z1-unreduced-y"
     if key is None:
-        key = "%s:%s:%s" % (clause, e["op"], e["via"].split(":")[0] if e["via"].startswith("gen-int") else e["via"])
+        via = e["via"]
+        if via.startswith("gen-int"):
+            via = via.split(":")[0]
+        elif e["op"] == "ecdhh":
+            parts = via.split(":")
+            via = parts[0] + (":" + parts[2] if len(parts) > 2 else "")
+        key = "%s:%s:%s" % (clause, e["op"], via)
     rep.violation("C17:" + key, "%s %s via %s a=%s b=%s k=%d m=%d -> library %s %s; specification %s %s" % (
         nm, e["op"], e["via"], e["a"], e["b"], e["k"], e["m"], e["out"], e["s"], clause, detail), dict(e, curve=nm, params=TINY[nm]))
